@@ -19,6 +19,14 @@ def cixs(ix):
 
 B_CAT, B_TITLE = 'bugs', 'constant-condition'
 C_CAT, C_TITLE = 'naming', 'my-rule'
+A_CAT, A_TITLE = 'imports', 'unresolved-import'     # a bundled aggregate rule (aggregate + aggregate_report, no report)
+N_COLLECT_FILES = 2                                  # harness/cmd/c04: files of the earlier run whose aggregates are supplied
+FOREIGN_STEPS = [
+    'step 1: Linter with the same bundle / custom rule, NO user configuration and NO overrides (every rule enabled), '
+    'WithExportAggregates(true), over %d files "package qN; import data.nonexistent.foo; allow if 1 == 1": keep Report.Aggregates' % N_COLLECT_FILES,
+    'step 2: Linter with the configuration and overrides of "case", WithAggregates(<Report.Aggregates of step 1>), over case.files files '
+    '(0 = aggregates only): Lint, DetermineEnabledRules, DetermineEnabledAggregateRules',
+]
 LEVELS = ['ignore', 'warning', 'error']
 RADICES = [2, 5, 5, 5, 4, 2, 64, 2, 6, 2, 2, 2, 6, 2, 6, 2, 6]
 
@@ -60,6 +68,37 @@ def user_levels(cin, cat, title):
     return lvl(catdoc.get(title)), lvl(catdoc.get('default')), lvl(rules.get('default'))
 
 
+def rule_kind(cin):
+    """(has_report, has_agg) of the rule under observation when the harness makes its bodies speak, else None"""
+    ct = (cin['cat'], cin['title'])
+    if ct == (B_CAT, B_TITLE):
+        return True, False
+    if cin['custom'] and ct == (C_CAT, C_TITLE):
+        return True, True
+    if ct == (A_CAT, A_TITLE):
+        return False, True
+    return None
+
+
+def foreign(cin):
+    return cin.get('supply') == 'foreign'
+
+
+def n_files(cin):
+    return cin['files'] if foreign(cin) else max(1, cin['files'])
+
+
+def expected_violations(cin):
+    """(per-file, aggregate) violations of the rule under observation in one Lint when the rule is on"""
+    has_report, has_agg = rule_kind(cin)
+    nf = n_files(cin)
+    phase = foreign(cin) or nf > 1
+    nagg = 0
+    if has_agg and phase:
+        nagg = 1 if cin['cat'] == C_CAT else (N_COLLECT_FILES if foreign(cin) else nf)
+    return (nf if has_report else 0), nagg
+
+
 def builtin_default(cin, cat, title, full_provided):
     """Regal's default for the rule: its provided level; "error" for a loaded custom rule; None = outside the
     property's domain (bundled rule without provided entry)"""
@@ -72,15 +111,50 @@ def builtin_default(cin, cat, title, full_provided):
 
 
 def triggered(cin):
-    ct = (cin['cat'], cin['title'])
-    return ct == (B_CAT, B_TITLE) or (cin['custom'] and ct == (C_CAT, C_TITLE))
+    return rule_kind(cin) is not None
 
 
 def observed_decision(cin, out):
-    hits = [r for r in (out['report'] or []) if r[0] == cin['cat'] and r[1] == cin['title']]
-    if not hits:
-        return None
-    return hits[0][2] if len(hits) == 1 else '<several>'
+    """what the rule's main entry point did: `report`, for a rule without one `aggregate_report` on supplied aggregates"""
+    has_report, _ = rule_kind(cin)
+    return find_level(out['report'] if has_report else out['agg_report_foreign'], cin['cat'], cin['title'])
+
+
+def deviations(cin, out, want):
+    """every entry point of main.rego / the Linter that does not do what the documented precedence decides (want: None = off)"""
+    has_report, has_agg = rule_kind(cin)
+    cat, title = cin['cat'], cin['title']
+    said = lambda x: 'did not report' if x is None else 'reported at level %r' % x
+    dev = []
+    if cin.get('fn', True) and 'report' in out and out['report'] is not None:
+        if has_report and find_level(out['report'], cat, title) != want:
+            dev.append(('report', 'main.report %s' % said(find_level(out['report'], cat, title))))
+        if has_agg:
+            if ((cat + '/' + title) in (out['aggregate'] or [])) != (want is not None):
+                dev.append(('aggregate', 'main.aggregate %s for it' % ('collected' if want is None else 'did not collect')))
+            if find_level(out['agg_report'], cat, title) != want:
+                dev.append(('aggregate_report', 'main.aggregate_report on the aggregates of the same run %s' % said(find_level(out['agg_report'], cat, title))))
+            if find_level(out['agg_report_foreign'], cat, title) != want:
+                dev.append(('aggregate_report-foreign', 'main.aggregate_report on aggregates collected in an earlier run (every rule enabled) %s'
+                            % said(find_level(out['agg_report_foreign'], cat, title))))
+        if out['ignored'] != (want is None):
+            dev.append(('ignored_rule', 'ignored_rule = %r' % out['ignored']))
+        if out['level'] != (want if want is not None else 'ignore'):
+            dev.append(('level_for_rule', 'level_for_rule = %r' % out['level']))
+    if cin['lint'] and not (out.get('lint_err') or ''):
+        lv = [x for x in out['lint_violations'] if x[0] == cat and x[1] == title]
+        nfile, nagg = expected_violations(cin)
+        how = ('Linter.Lint WithAggregates(aggregates exported by an earlier run in which every rule was enabled)' if foreign(cin) else 'Linter.Lint')
+        how += ' over %d file(s)' % n_files(cin)
+        if want is None and lv:
+            dev.append(('lint-agg' if any(x[3] == 'agg' for x in lv) else 'lint', '%s reported it: %s' % (how, sorted({'%s (%s)' % (x[2], x[3]) for x in lv}))))
+        elif want is not None and (bool(lv) != (nfile + nagg > 0) or any(x[2] != want for x in lv)):
+            dev.append(('lint', '%s gave %s' % (how, sorted({'%s (%s)' % (x[2], x[3]) for x in lv}) or 'nothing')))
+        if not out['noticed_noinput'] and (title in (out['enabled'] or [])) != (want is not None):
+            dev.append(('enabled-list', 'DetermineEnabledRules %s it' % ('lists' if title in (out['enabled'] or []) else 'does not list')))
+        if has_agg and cin.get('enabled_agg') and not out.get('enabled_err') and (title in (out['enabled_agg'] or [])) != (want is not None):
+            dev.append(('enabled-agg-list', 'DetermineEnabledAggregateRules %s it' % ('lists' if title in (out['enabled_agg'] or []) else 'does not list')))
+    return dev
 
 
 def size_of(cin):
@@ -92,9 +166,11 @@ def size_of(cin):
 
 
 def sig_key(cin):
-    return json.dumps({'rule': cin['cat'] + '/' + cin['title'], 'custom': cin['custom'], 'provided': 'bundle' if cin['full_bundle'] else cin['provided'],
-                       'user': None if cin['no_user'] else cin['user'], 'params': {k: v for k, v in cin['params'].items() if v}},
-                      sort_keys=True)
+    d = {'rule': cin['cat'] + '/' + cin['title'], 'custom': cin['custom'], 'provided': 'bundle' if cin['full_bundle'] else cin['provided'],
+         'user': None if cin['no_user'] else cin['user'], 'params': {k: v for k, v in cin['params'].items() if v}}
+    if foreign(cin):
+        d['supply'] = 'foreign'
+    return json.dumps(d, sort_keys=True)
 
 
 # ------------------------------------------------------------------ Coq printers
@@ -112,7 +188,8 @@ def find_level(rows, cat, title):
     return hits[0][2] if len(hits) == 1 else '<several>'
 
 
-GROUPS = [(0, 0), (0, 1), (0, 2), (0, 3), (0, 4), (1, 4)]   # (k, p) in the order of Check/C04Table.v
+GROUPS = [(0, 0), (0, 1), (0, 2), (0, 3), (0, 4), (1, 4), (2, 0), (2, 1), (2, 2), (2, 3), (2, 4)]   # (k, p) in the order of Check/C04Table.v
+ENTRY = 5                                                     # codes per case in that table
 
 
 def fn_index(code):
@@ -123,8 +200,7 @@ def fn_index(code):
 
 
 def fn_entry(cin, out, full_provided):
-    """the 4 characters of Check.C04Check.fn_entry, from what /repo did (and, 4th, python's reading of the README)"""
-    ch = lambda n: chr(48 + n)
+    """the 5 codes of Check.C04Check.fn_entry, from what /repo did (and, 4th, python's reading of the README)"""
     key = cin['cat'] + '/' + cin['title']
     c1 = code_level(out['go_entry']) + 6 * int(out['ignored']) + 12 * int(out['fd']) + 24 * int(out['fe'])
     c2 = code_level(out['level']) + 6 * int(out['to_run']) + 12 * int(key in (out['aggregate'] or []))
@@ -136,7 +212,19 @@ def fn_entry(cin, out, full_provided):
         rl, cd, gd = user_levels(cin, cin['cat'], cin['title'])
         want = spec_decision(cin['params'], cin['cat'], cin['title'], rl, cd, gd, bd)
         c4 = 1 if want is None else 1 + code_level(want)
-    return ch(c1) + ch(c2) + ch(c3) + ch(c4)
+    return (c1, c2, c3, c4, code_level(find_level(out['agg_report_foreign'], cin['cat'], cin['title'])))
+
+
+def unpack_row(n):
+    """Check.C04Check.pack_row: 64 cases x ENTRY base-64 digits behind a leading 1"""
+    digits = []
+    for _ in range(64 * ENTRY):
+        digits.append(n & 63)
+        n >>= 6
+    if n != 1:
+        raise RuntimeError('malformed table row')
+    digits.reverse()
+    return [tuple(digits[i:i + ENTRY]) for i in range(0, len(digits), ENTRY)]
 
 
 def c_rules_map(m):
@@ -171,15 +259,18 @@ def c_optlevel(x):
 
 def c_ecase(cin, out):
     is_custom = cin['custom'] and (cin['cat'], cin['title']) == (C_CAT, C_TITLE)
-    obs = '(mkObs %s %s %s %s %s %s %s %s %s)' % (
+    has_report, has_agg = rule_kind(cin) or (True, False)
+    obs = '(mkObs %s %s %s %s %s %s %s %s %s %s)' % (
         c_optlevel(out['go_entry']), cbool(out['ignored']), cbool(out['fd']), cbool(out['fe']), cstr(out['level']),
         cbool(out['to_run']), c_optlevel(find_level(out['report'], cin['cat'], cin['title'])),
         cbool((cin['cat'] + '/' + cin['title']) in (out['aggregate'] or [])),
-        c_optlevel(find_level(out['agg_report'], cin['cat'], cin['title'])))
-    return '(mkCase %s %s %s %s %s %s %s %s %s)' % (
+        c_optlevel(find_level(out['agg_report'], cin['cat'], cin['title'])),
+        c_optlevel(find_level(out['agg_report_foreign'], cin['cat'], cin['title'])))
+    return '(mkCase %s %s %s %s %s %s %s %s %s %s %s)' % (
         '[]' if cin['full_bundle'] else c_rules_map(cin['provided']), c_config(cin),
         clist(['(%s, %s)' % (cstr(C_CAT), cstr(C_TITLE))] if cin['custom'] else []),
-        c_params(cin['params']), cstr(cin['cat']), cstr(cin['title']), cbool(is_custom), cbool(triggered(cin)), obs)
+        c_params(cin['params']), cstr(cin['cat']), cstr(cin['title']), cbool(is_custom), cbool(triggered(cin)),
+        cbool(has_report), cbool(has_agg), obs)
 
 
 class Names:
@@ -212,8 +303,8 @@ def c_lcase(names, agg_rules, cin, out):
     verr = (out.get('lint_err') or '').startswith('unknown-')
     viol = [v for v in (out['lint_violations'] or []) if v[0] == cin['cat'] and v[1] == cin['title']]
     custom_rep = sorted({v[1] for v in (out['lint_violations'] or []) if cin['custom'] and (v[0], v[1]) == (C_CAT, C_TITLE)})
-    return '(mkLCase %s %s %d%%nat %s %s %s %s %s %s %s %s %s %s)' % (
-        c_ecase(cin, out), cbool(cin['full_bundle']), max(1, cin['files']), cbool(verr),
+    return '(mkLCase %s %s %d%%nat %d%%nat %s %s %s %s %s %s %s %s %s %s)' % (
+        c_ecase(cin, out), cbool(cin['full_bundle']), n_files(cin), N_COLLECT_FILES if foreign(cin) else 0, cbool(verr),
         clist('(%s, %s)' % (cstr(v[2]), cbool(v[3] == 'agg')) for v in viol),
         names.title_list(out['enabled'] or []), cbool(cin.get('enabled_agg', False)), names.title_list(out['enabled_agg'] or []),
         names.pair_list(out['noticed_noinput'] or []), names.pair_list(agg_rules),
@@ -281,42 +372,59 @@ def run(ctx):
           'Definition L1 := Eval vm_compute in failing lcase_agrees 0 l_cases.',
           'Definition L2 := Eval vm_compute in failing (fun l => case_meets_spec (lcase_full_ok l) && lint_meets_spec l) 0 l_cases.',
           'Definition L3 := Eval vm_compute in failing enabled_is_runnable 0 l_cases.',
+          'Definition L4 := Eval vm_compute in failing enabled_agg_is_reporting 0 l_cases.',
           'Definition E1 := Eval vm_compute in failing case_agrees 0 e_cases.',
           'Definition E2 := Eval vm_compute in failing case_meets_spec 0 e_cases.',
-          'Print T0. Print L1. Print L2. Print L3. Print E1. Print E2.']
+          'Print T0. Print L1. Print L2. Print L3. Print L4. Print E1. Print E2.']
     # self-test of the glue: a case whose observation is perturbed must be flagged by the comparison
     if lint_cases:
         pr = json.loads(json.dumps(lint_cases[0]))
         pr['out']['ignored'] = not pr['out']['ignored']
         v += ['Definition S1 := Eval vm_compute in failing lcase_agrees 0 [%s].' % c_lcase(names, agg_rules, pr['in'], pr['out']), 'Print S1.']
+    # only the chunks this tier visits are printed
+    visited = {(r['code']['k'], r['code']['p']) for r in fn_ok}
+    chunk_names = [n for n in chunk_names if tuple(int(x) for x in n.split('_')[1:3]) in visited]
     if fn_ok:
-        v += ['Open Scope string_scope.'] + ['Print %s.' % n for n in chunk_names]
+        v += ['Print %s.' % n for n in chunk_names]
     rc, cout = vlib.coq_eval(ctx, 'Cases_C04', '\n'.join(v), timeout=2400)
     if rc != 0:
         raise RuntimeError('case evaluation failed:\n' + cout[-3000:])
     phase('coq_eval')
     g = lambda m: vlib.parse_nat_list(cout, m) or []
-    t0, l1, l2, l3, e1, e2 = g('T0'), g('L1'), g('L2'), g('L3'), g('E1'), g('E2')
+    t0, l1, l2, l3, l4, e1, e2 = g('T0'), g('L1'), g('L2'), g('L3'), g('L4'), g('E1'), g('E2')
     if lint_cases and g('S1') != [0]:
         raise RuntimeError('self-test failed: a perturbed observation was not flagged by Check.C04Check.lcase_agrees')
     # exhaustive function level: the table Coq computed from the model (Check/C04Table.v) against what /repo did
     f1, f2, fx, fn_in_domain = [], [], [], 0
     if fn_ok:
-        chunks = dict(re.findall(r'(tbl_\w+) =\s*"((?:[^"]|"")*)"', cout, re.S))
-        table = ''.join(chunks.get(n, '').replace('\n', '') for n in chunk_names)
-        if len(table) != 4 * 6464 * len(GROUPS):
-            raise RuntimeError('expected table has %d characters' % len(table))
+        chunks = {n: [int(x) for x in re.findall(r'\d+', body)] for n, body in re.findall(r'(tbl_\w+) =\s*\[([^\]]*)\]', cout, re.S)}
+        table = {}
+        for gi, (gk, gp) in enumerate(GROUPS):
+            for ui, u in enumerate(('0', '1', '2', '3', '4', 'nu')):
+                rows = chunks.get('tbl_%d_%d_%s' % (gk, gp, u))
+                if rows is None:
+                    continue
+                if len(rows) != (1 if u == 'nu' else 20):
+                    raise RuntimeError('expected table chunk tbl_%d_%d_%s has %d rows' % (gk, gp, u, len(rows)))
+                base = gi * 6464 + (6400 if u == 'nu' else ui * 1280)
+                for ri, n in enumerate(rows):
+                    for fi, e in enumerate(unpack_row(n)):
+                        table[base + ri * 64 + fi] = e
         for i, r in enumerate(fn_ok):
-            k = fn_index(r['code'])
-            want = table[4 * k:4 * k + 4]
+            want = table[fn_index(r['code'])]
             got = fn_entry(r['in'], r['out'], full_provided)
-            if got[:3] != want[:3]:
+            if got[:3] + got[4:] != want[:3] + want[4:]:
                 f1.append(i)                    # model and implementation disagree
-            if want[3] != '0':
+            if want[3] != 0:
                 fn_in_domain += 1
-                rep = (ord(got[2]) - 48) % 6    # observed: 0 not reported, else level code
-                if rep != ord(want[3]) - 49:
-                    f2.append(i)                # the README decision (as Coq computes it) is not what /repo did
+                dec = want[3] - 1               # the README decision as Coq computes it: 0 off, else level code
+                has_report, has_agg = rule_kind(r['in'])
+                g1, g2, g4 = got[1], got[2], got[4]
+                ok = not has_report or g2 % 6 == dec                                  # main.report
+                if has_agg:                                                            # main.aggregate, main.aggregate_report (own / supplied)
+                    ok = ok and ((g1 // 12) % 2 == int(dec != 0)) and g2 // 6 == dec and g4 == dec
+                if not ok:
+                    f2.append(i)                # ... is not what /repo did
             if got[3] != want[3]:
                 fx.append(i)                    # python's and Coq's reading of the README differ: glue bug
         if fx and not f2:
@@ -333,18 +441,11 @@ def run(ctx):
             continue
         rl, cd, gd = user_levels(cin, cin['cat'], cin['title'])
         want = spec_decision(cin['params'], cin['cat'], cin['title'], rl, cd, gd, bd)
-        got = observed_decision(cin, out)
         py_checked += 1
         hist[str(want)] = hist.get(str(want), 0) + 1
-        ok = (want == got)
-        # the level function and the enable predicate must tell the same story
-        ok = ok and (out['ignored'] == (want is None)) and (out['level'] == (want if want is not None else 'ignore'))
-        if cin['lint'] and not (out.get('lint_err') or ''):
-            lv = [x for x in out['lint_violations'] if x[0] == cin['cat'] and x[1] == cin['title']]
-            ok = ok and ((want is None and not lv) or (want is not None and lv and all(x[2] == want for x in lv)))
-            # the list computed up front names the rule exactly when it reports
-            ok = ok and ((cin['title'] in (out['enabled'] or [])) == (want is not None)) if not out['noticed_noinput'] else ok
-        if not ok:
+        # every entry point (report / aggregate / aggregate_report on own and on supplied aggregates), the level function,
+        # the enable predicate, what Lint returns and the lists computed up front must tell the same story
+        if deviations(cin, out, want):
             py_bad.append(r)
     enabled_bad = []
     for r in lint_cases:
@@ -357,12 +458,26 @@ def run(ctx):
         if sorted(out['enabled'] or []) != runnable and not (out.get('lint_err') or ''):
             enabled_bad.append(r)
 
+    # the aggregate list computed up front against what really reported when aggregates of every rule were supplied
+    enabled_agg_bad = []
+    for r in lint_cases:
+        cin, out = r['in'], r['out']
+        if not (foreign(cin) and cin.get('enabled_agg') and triggered(cin) and rule_kind(cin)[1]) or out.get('enabled_err') or (out.get('lint_err') or ''):
+            continue
+        reported = any(x[0] == cin['cat'] and x[1] == cin['title'] and x[3] == 'agg' for x in out['lint_violations'])
+        if (cin['title'] in (out['enabled_agg'] or [])) != reported:
+            enabled_agg_bad.append(r)
+
     # ---- verdicts --------------------------------------------------------------------------------------
     def report_spec(r, what):
         cin = r['in']
-        vlib.violation(ctx, {'kind': 'decision-vs-spec', 'case': cin, 'observed': {k: r['out'].get(k) for k in
-                             ('go_entry', 'ignored', 'level', 'to_run', 'report', 'lint_violations', 'lint_err')},
-                             'what': what},
+        obj = {'kind': 'decision-vs-spec', 'case': cin, 'observed': {k: r['out'].get(k) for k in
+               ('go_entry', 'ignored', 'level', 'to_run', 'report', 'aggregate', 'agg_report', 'agg_report_foreign',
+                'lint_violations', 'lint_err', 'enabled_agg')}, 'what': what}
+        w = want_got(r)[0]
+        if foreign(cin) or (w != '?' and any(d[0] == 'aggregate_report-foreign' for d in deviations(cin, r['out'], w))):
+            obj['steps'] = FOREIGN_STEPS
+        vlib.violation(ctx, obj,
                        signature={'kind': 'decision-vs-spec', 'key': sig_key(cin)})
 
     spec_bad = {r['id']: r for r in py_bad}
@@ -382,7 +497,8 @@ def run(ctx):
     def deviation_class(r):
         want, got = want_got(r)
         shape = lambda x: 'off' if x is None else ('no-level' if x == '' else 'on')
-        return (r['in']['custom'] and r['in']['cat'] == C_CAT, shape(want), shape(got))
+        dev = deviations(r['in'], r['out'], want) if want != '?' else []
+        return (r['in']['cat'] + '/' + r['in']['title'], shape(want), shape(got), dev[0][0] if dev else '')
 
     # one report per kind of deviation (smallest case of each), so that distinct defects are not hidden behind each other
     by_class = {}
@@ -396,10 +512,11 @@ def run(ctx):
             lv = sorted({x[2] for x in (r['out']['lint_violations'] or []) if x[0] == cin['cat'] and x[1] == cin['title']})
             lint_part = '; Linter.Lint reported it at levels %s, DetermineEnabledRules %s it' % (
                 lv or 'none (not reported)', 'lists' if cin['title'] in (r['out']['enabled'] or []) else 'does not list')
-        report_spec(r, 'rule %s/%s (%s): the documented precedence gives %s; main.report did %s (level_for_rule=%r, ignored_rule=%r, merged level=%r)%s'
+        dev = deviations(cin, r['out'], want) if want != '?' else []
+        report_spec(r, 'rule %s/%s (%s): the documented precedence gives %s; but: %s (level_for_rule=%r, ignored_rule=%r, merged level=%r)%s'
                     % (cin['cat'], cin['title'], 'custom' if cin['custom'] and cin['cat'] == C_CAT else 'bundled',
                        'disabled' if want is None else 'level ' + str(want),
-                       'not report' if got is None else 'report at level %r' % got,
+                       '; '.join(d[1] for d in dev) or ('main.report did ' + ('not report' if got is None else 'report at level %r' % got)),
                        r['out']['level'], r['out']['ignored'], r['out']['go_entry'], lint_part))
     elist_bad = {r['id']: r for r in enabled_bad}
     for i in l3:
@@ -412,8 +529,22 @@ def run(ctx):
                              'only_in_enabled_list': sorted(set(out['enabled'] or []) - set(runnable) - {x[1] for x in out['lint_violations'] if (x[0], x[1]) == (C_CAT, C_TITLE)}),
                              'only_runnable': sorted(set(runnable) - set(out['enabled'] or [])),
                              'custom_rules_reporting': sorted({x[1] for x in out['lint_violations'] if (x[0], x[1]) == (C_CAT, C_TITLE)}),
-                             'what': 'DetermineEnabledRules differs from the set of rules that can report'},
+                             'enabled_agg': out.get('enabled_agg'), 'lint_violations': out.get('lint_violations'),
+                             'steps': FOREIGN_STEPS if foreign(cin) else ['one Linter: Lint, DetermineEnabledRules, DetermineEnabledAggregateRules'],
+                             'what': 'DetermineEnabledRules / DetermineEnabledAggregateRules differ from the set of rules that can report'},
                        signature={'kind': 'enabled-list', 'key': sig_key(cin)})
+    eagg_bad = {r['id']: r for r in enabled_agg_bad}
+    for i in l4:
+        eagg_bad.setdefault(lint_cases[i]['id'], lint_cases[i])
+    for r in sorted(eagg_bad.values(), key=lambda r: (r['in']['files'], size_of(r['in'])))[:1]:
+        cin, out = r['in'], r['out']
+        lv = [x for x in out['lint_violations'] if x[0] == cin['cat'] and x[1] == cin['title']]
+        vlib.violation(ctx, {'kind': 'enabled-aggregate-list', 'case': cin, 'steps': FOREIGN_STEPS,
+                             'enabled_aggregate_rules': out.get('enabled_agg'), 'violations_of_the_rule': lv,
+                             'what': 'rule %s/%s %s DetermineEnabledAggregateRules, yet Lint on the supplied aggregates %s'
+                                     % (cin['cat'], cin['title'], 'is in' if cin['title'] in (out['enabled_agg'] or []) else 'is not in',
+                                        'reported it: %s' % sorted({'%s (%s)' % (x[2], x[3]) for x in lv}) if lv else 'did not report it')},
+                       signature={'kind': 'enabled-aggregate-list', 'key': sig_key(cin)})
     # correspondence only (no failing input found above)
     if not ctx.violations:
         if t0 != [1]:
@@ -434,25 +565,32 @@ def run(ctx):
     proof_gate(ctx)
 
     distinct = len({json.dumps([r['in']['provided'], r['in']['user'], r['in']['no_user'], r['in']['params'], r['in']['cat'], r['in']['title'],
-                                r['in']['full_bundle'], r['in']['custom'], r['in']['files'] if r['in']['lint'] else 0], sort_keys=True)
+                                r['in']['full_bundle'], r['in']['custom'], r['in']['files'] if r['in']['lint'] else 0, r['in'].get('supply')], sort_keys=True)
                     for r in fn_ok + ex_ok})
-    sample = lambda r: {'in': r['in'], 'out': {k: r['out'].get(k) for k in ('go_entry', 'ignored', 'level', 'to_run', 'report')}}
+    sample = lambda r: {'in': r['in'], 'out': {k: r['out'].get(k) for k in ('go_entry', 'ignored', 'level', 'to_run', 'report', 'aggregate', 'agg_report',
+                                                                            'agg_report_foreign', 'lint_violations')}}
     cov = proof_coverage(ctx, {
         'evaluations': len(fn_ok) + len(ex_ok),
         'distinct_nontrivial': distinct,
         'rule': 'function level: EXHAUSTIVE over provided level {missing, no level, ignore, warning, error} x user rule level {absent, no level, '
                 'ignore, warning, error} x category default {absent, no level, 3 levels} x global default {none, 3 levels} x the 2^6 command line '
-                'overrides naming / not naming the rule and its category (plus the no-user-config row), for bundled rule bugs/constant-condition and '
-                'custom rule naming/my-rule (report + aggregate + aggregate_report bodies): real Linter.GetConfig merge, then real '
-                'data.regal.config.{ignored_rule,level_for_rule,_force_*} and data.regal.main.{_rules_to_run,report,aggregate,aggregate_report}. '
+                'overrides naming / not naming the rule and its category (plus the no-user-config row), for bundled rule bugs/constant-condition '
+                '(report), custom rule naming/my-rule (report + aggregate + aggregate_report bodies) and bundled aggregate rule '
+                'imports/unresolved-import (aggregate + aggregate_report): real Linter.GetConfig merge, then real '
+                'data.regal.config.{ignored_rule,level_for_rule,_force_*} and data.regal.main.{_rules_to_run,report,aggregate,aggregate_report}, '
+                'aggregate_report both on the aggregates of the same configuration and on aggregates exported by an earlier real Lint run in '
+                'which every rule was enabled. '
                 'Lint level: Linter.Lint (1 and 3 files) + DetermineEnabledRules/DetermineEnabledAggregateRules on sampled codes (reduced and real '
-                'provided config) and on generated multi-rule configurations over the real bundle incl. odd level strings. '
+                'provided config), two-step cases (collect with every rule enabled, then WithAggregates under each way of disabling/enabling, '
+                '0/1/3 files) for the custom and the bundled aggregate rule, and generated multi-rule configurations over the real bundle '
+                'incl. odd level strings. '
                 'distinct = distinct (provided, user document, params, rule, custom?, files) tuples',
-        'fn_cases': len(fn_ok), 'fn_cases_in_spec_domain': fn_in_domain, 'lint_cases': len(lint_cases), 'explicit_fn_cases': len(fnonly_cases),
+        'fn_cases': len(fn_ok), 'fn_cases_in_spec_domain': fn_in_domain, 'lint_cases': len(lint_cases),
+        'lint_cases_with_supplied_aggregates': sum(1 for r in lint_cases if foreign(r['in'])), 'explicit_fn_cases': len(fnonly_cases),
         'python_predicate_checked': py_checked, 'decision_histogram': hist,
         'lint_validation_errors': sum(1 for r in lint_cases if (r['out'].get('lint_err') or '').startswith('unknown-')),
         'mismatch_model_fn': len(f1), 'mismatch_spec_fn': len(f2), 'mismatch_model_lint': len(l1), 'mismatch_spec_lint': len(l2),
-        'mismatch_enabled_list': len(l3) + len(enabled_bad), 'mismatch_python_predicate': len(py_bad), 'harness_errors': len(errs),
+        'mismatch_enabled_list': len(l3) + len(enabled_bad), 'mismatch_enabled_aggregate_list': len(l4) + len(enabled_agg_bad), 'mismatch_python_predicate': len(py_bad), 'harness_errors': len(errs),
         'tables_agree_with_loaded_bundle': t0 == [1], 'phase_seconds': phases,
         'samples': [sample(r) for r in (fn_ok[len(fn_ok) // 3:len(fn_ok) // 3 + 1] + lint_cases[:1] + ex_ok[-1:])],
         'exhaustive': 'function level: yes (finite abstraction named by the property); Lint level: sampled',
